@@ -283,7 +283,7 @@ def vkey(v):
 
 
 class State:
-    __slots__ = ("env", "pc", "trace", "stack", "frames", "steps", "forks", "late", "model", "entered")
+    __slots__ = ("env", "pc", "trace", "stack", "frames", "steps", "forks", "late", "model", "entered", "known")
 
     def copy(self):
         s = State()
@@ -297,6 +297,7 @@ class State:
         s.late = self.late
         s.model = self.model
         s.entered = self.entered
+        s.known = set(self.known)
         return s
 
 
@@ -327,6 +328,9 @@ class Exec:
         self.paths = []
         self.deadline = None
         self.rng = None
+        self.merge_pure = False
+        self.check_indirect_sigs = False
+        self._pure_cache = {}
 
     # ------------------------------------------------------------------ solver
     def feasible(self, pc):
@@ -439,6 +443,7 @@ class Exec:
         st.late = None
         st.model = model0
         st.entered = frozenset()
+        st.known = set()
         for n, a in zip(f["params"], args):
             st.env[n] = a
         st.stack = [("ret", f["retval"], None, None, 0), ("seq", f["body"], 0)]
@@ -474,6 +479,15 @@ class Exec:
         if z3.is_false(c):
             else_fn(st)
             return [st]
+        # a decision already taken on this path (same hash-consed term) needs no solver call
+        nc = z3.Not(c)
+        cid, nid = c.get_id(), nc.get_id()
+        if cid in st.known:
+            then_fn(st)
+            return [st]
+        if nid in st.known:
+            else_fn(st)
+            return [st]
         in_loop = any(fr[0] == "loop" for fr in st.stack)
         if in_loop and st.forks >= self.max_forks:
             raise Budget("loop unrolling budget")
@@ -497,7 +511,9 @@ class Exec:
                 st.forks += 1
                 s2.forks += 1
             st.pc.append(c)
-            s2.pc.append(z3.Not(c))
+            s2.pc.append(nc)
+            st.known.add(cid)
+            s2.known.add(nid)
             st.model = t_m
             s2.model = e_m
             then_fn(st)
@@ -505,11 +521,13 @@ class Exec:
             out = [st, s2]
         elif t_m is not None:
             st.pc.append(c)
+            st.known.add(cid)
             st.model = t_m
             then_fn(st)
             out = [st]
         elif e_m is not None:
-            st.pc.append(z3.Not(c))
+            st.pc.append(nc)
+            st.known.add(nid)
             st.model = e_m
             else_fn(st)
             out = [st]
@@ -628,6 +646,8 @@ class Exec:
                 st.stack.append(("seq", s["s2"], 0))
             return None
         if k == "if":
+            if self.merge_pure and self.merge_if(s, st):
+                return None
             ct = self.as_int(self.ev(s["c"], st), "if")
             self.assume_bool(ct, st)
             c = ct != BV(0)
@@ -674,6 +694,68 @@ class Exec:
         if k == "call":
             return self.do_call(s, st, work)
         raise Unsupported("statement kind %s" % k)
+
+    # ---- if-conversion of pure diamonds (opt-in: merge_pure) -----------------------------------------------
+    _PURE_OPS = ("PLUS", "MINUS", "MUL", "LT", "LE", "GT", "GE", "EQ", "NE", "XOR", "LAND", "LOR")
+
+    def _pure_block(self, stmts):
+        for x in stmts:
+            k = x["k"]
+            if k == "bin" and x["op"] in self._PURE_OPS:
+                continue
+            if k == "not":
+                continue
+            if k == "if" and self._pure_if(x):
+                continue
+            return False
+        return True
+
+    def _pure_if(self, s):
+        r = self._pure_cache.get(id(s))
+        if r is None:
+            r = self._pure_block(s["s1"]) and self._pure_block(s["s2"])
+            self._pure_cache[id(s)] = r
+        return r
+
+    def merge_if(self, s, st):
+        """`if c { pure } else { pure }` whose results are integers is evaluated on both sides and joined with
+        ite instead of forking the path (exact: the branches have no effects, calls, loads, casts or traps)."""
+        if self.role != "new" or not self._pure_if(s):
+            return False
+        cv = self.ev(s["c"], st)
+        if not isinstance(cv, Int):
+            return False
+        c = cv.t != BV(0)
+        saved = st.env
+        outs = []
+        try:
+            for which, block in ((1, s["s1"]), (2, s["s2"])):
+                st.env = dict(saved)
+                for x in block:
+                    if x["k"] == "if":
+                        if not self.merge_if(x, st):
+                            return False
+                    elif x["k"] == "bin":
+                        a = self.ev(x["e1"], st)
+                        b = self.ev(x["e2"], st)
+                        if not (isinstance(a, Int) and isinstance(b, Int)):
+                            return False
+                        if self.do_bin(x, st, None) is not None:
+                            return False
+                    else:
+                        if not isinstance(self.ev(x["e"], st), Int):
+                            return False
+                        if self.exec_stmt(x, st, None) is not None:
+                            return False
+                vals = [self.ev(fa["e1"] if which == 1 else fa["e2"], st) for fa in s["fa"]]
+                if not all(isinstance(v, Int) for v in vals):
+                    return False
+                outs.append(vals)
+        finally:
+            st.env = saved
+        for fa, v1, v2 in zip(s["fa"], outs[0], outs[1]):
+            st.env[fa["n"]] = Int(z3.simplify(z3.If(c, v1.t, v2.t)))
+        return True
 
     def resume(self, outs, st, work):
         if not outs:
@@ -873,6 +955,15 @@ class Exec:
             if len(st.frames) >= self.max_depth:
                 raise Budget("call depth")
             callee = self.p.fns[target]
+            if self.check_indirect_sigs and "var" in f and self.p.ir == "lir":
+                # WebAssembly's call_indirect traps unless the callee's declared type matches the type the call site
+                # names; both are printed from these LIR types, so they must agree parameter by parameter
+                site = (f["var"].get("t") or {}).get("fn") if isinstance(f["var"].get("t"), dict) else None
+                if site is not None and (list(site["args"]) != list(callee["ptypes"])):
+                    st.stack = []
+                    self.finish(st, "trap", why="indirect call signature mismatch: %s is declared %s but called as %s"
+                                % (target, json.dumps(callee["ptypes"]), json.dumps(site["args"])))
+                    return "done"
             saved = st.env
             st.entered = st.entered | {target}
             st.frames.append(target)
